@@ -28,6 +28,7 @@ package sm
 //@   property C10
 //@   requires sm != nil && sm.mux != nil && !closed(sm.mux.e)
 //@   modifies reports()
+//@   ensures offered: reports() == old(reports()) + 1
 //@ end
 //@
 //@ func (*StateMachine).HandleFunc(sm, cmd, handler)
@@ -81,4 +82,122 @@ package sm
 //@   modifies mapof(sm.mux.idxMap), mapof(sm.mux.m), wlocked(&sm.mux.mu), reports()
 //@   ensures [C10] still_gated: gated(sm)
 //@   ensures [C10] builtins_cannot_be_replaced: builtinName(cmd) ==> samemaps(sm)
+//@ end
+//@
+//@ # ======================= answering a CER (C11) ==============================
+//@ spec smok(s *StateMachine) bool = s != nil && s.cfg != nil && s.mux != nil && !closed(s.mux.e)
+//@ spec reqok(m *diam.Message) bool = m != nil && m.Header != nil && (m.dictionary != nil ==> pwf(m.dictionary))
+//@ # the failure result code that goes with a cause of rejection
+//@ spec codefor(e error) uint32 = e == smparser.ErrNoCommonSecurity ? 5017 : e == smparser.ErrNoCommonApplication ? 5010 : 5012
+//@ spec resultcode(a *diam.Message) uint32 = uint32(a.AVP[0].Data.(datatype.Unsigned32))
+//@ spec hasresult(a *diam.Message) bool = len(a.AVP) >= 3 && a.AVP[0].Code == 268 && typeis(a.AVP[0].Data, datatype.Unsigned32)
+//@ # identity AVPs from the local settings right after the Result-Code
+//@ spec identified(a *diam.Message, cfg *Settings) bool = len(a.AVP) >= 3 &&
+//@      a.AVP[1].Code == 264 && typeis(a.AVP[1].Data, datatype.DiameterIdentity) && a.AVP[1].Data.(datatype.DiameterIdentity) == cfg.OriginHost &&
+//@      a.AVP[2].Code == 296 && typeis(a.AVP[2].Data, datatype.DiameterIdentity) && a.AVP[2].Data.(datatype.DiameterIdentity) == cfg.OriginRealm
+//@ spec mirrors(a *diam.Message, m *diam.Message) bool = a.Header.HopByHopID == m.Header.HopByHopID && a.Header.EndToEndID == m.Header.EndToEndID &&
+//@      a.Header.CommandCode == m.Header.CommandCode && a.Header.ApplicationID == m.Header.ApplicationID
+//@
+//@ func getLocalAddresses(c) (addrs, err)
+//@   property C11 C12
+//@   trusted
+//@   modifies
+//@ end
+//@
+//@ func errorCEA(sm, c, m, cer, errMessage) (err)
+//@   property C11 C16
+//@   absidx
+//@   requires smok(sm) && c != nil && isptr(c) && reqok(m) && cer != nil && ostateok(cer)
+//@   assume default_dictionary_initialised: dict.Default != nil && pwf(dict.Default)
+//@   assumepre WriteTo: the CEA built from the settings fits a Diameter message (below 2^24 bytes, fewer than 65536 AVPs) and the bytes written on the connection so far are below 2^44
+//@   modifies written(c), wstream(c), wlog(c)[written(c):written(c)+(1<<24)], bufslice(any), bytes(any), inpool(any), lastsent(c)
+//@   ensures [C11] sent_or_failed: err == nil ==> fresh(lastsent(c))
+//@   ensures [C11] nothing_else_sent: !fresh(lastsent(c)) ==> lastsent(c) == old(lastsent(c)) && err != nil
+//@   ensures [C11] failure_code_matches_the_cause: fresh(lastsent(c)) ==> hasresult(lastsent(c)) && resultcode(lastsent(c)) == codefor(errMessage)
+//@   ensures [C11] identity_from_settings: fresh(lastsent(c)) ==> identified(lastsent(c), sm.cfg)
+//@   ensures [C11 C16] request_ids_mirrored: fresh(lastsent(c)) ==> mirrors(lastsent(c), m)
+//@   ensures [C16] error_answer_flags: fresh(lastsent(c)) ==> lastsent(c).Header.CommandFlags == (m.Header.CommandFlags &^ 0x80) | 0x20
+//@   loop 0
+//@     invariant 0 - 1 <= rangeindex && rangeindex < len(hostAddresses)
+//@     invariant own1: a != nil && fresh(a) && a.Header != nil && fresh(a.Header)
+//@     invariant own2: a.dictionary == mdict(m)
+//@     invariant own3: (cap(a.AVP) == 0 || fresh(a.AVP))
+//@     invariant code1: hasresult(a)
+//@     invariant code2: resultcode(a) == codefor(errMessage)
+//@     invariant ident: identified(a, sm.cfg)
+//@     invariant ids: mirrors(a, m) && a.Header.CommandFlags == (m.Header.CommandFlags &^ 0x80) | 0x20
+//@   end
+//@ end
+//@
+//@ func successCEA(sm, c, m, cer) (err)
+//@   property C11 C16
+//@   absidx
+//@   requires smok(sm) && c != nil && isptr(c) && reqok(m) && cer != nil && ostateok(cer)
+//@   requires apps_listed: forall i int :: 0 <= i && i < len(sm.supportedApps) ==> sm.supportedApps[i] != nil
+//@   assume default_dictionary_initialised: dict.Default != nil && pwf(dict.Default)
+//@   assumepre WriteTo: the CEA built from the settings fits a Diameter message (below 2^24 bytes, fewer than 65536 AVPs) and the bytes written on the connection so far are below 2^44
+//@   assumepre NewAVP.nongroup: the Vendor-Specific-Application-Id group is added by the same code path as any other AVP; Message.NewAVP's contract is proved for non-grouped data only and is assumed here for this freshly built two-member group
+//@   modifies written(c), wstream(c), wlog(c)[written(c):written(c)+(1<<24)], bufslice(any), bytes(any), inpool(any), lastsent(c)
+//@   ensures [C11] sent_or_failed: err == nil ==> fresh(lastsent(c))
+//@   ensures [C11] nothing_else_sent: !fresh(lastsent(c)) ==> lastsent(c) == old(lastsent(c)) && err != nil
+//@   ensures [C11] success_code: fresh(lastsent(c)) ==> hasresult(lastsent(c)) && resultcode(lastsent(c)) == 2001
+//@   ensures [C11] identity_from_settings: fresh(lastsent(c)) ==> identified(lastsent(c), sm.cfg)
+//@   ensures [C11 C16] request_ids_mirrored: fresh(lastsent(c)) ==> mirrors(lastsent(c), m)
+//@   ensures [C16] answer_flags: fresh(lastsent(c)) ==> lastsent(c).Header.CommandFlags == m.Header.CommandFlags &^ 0x80
+//@   loop 0
+//@     invariant 0 - 1 <= rangeindex && rangeindex < len(hostAddresses)
+//@     invariant apps_listed: forall i int :: 0 <= i && i < len(sm.supportedApps) ==> sm.supportedApps[i] != nil
+//@     invariant own1: a != nil && fresh(a) && a.Header != nil && fresh(a.Header)
+//@     invariant own2: a.dictionary == mdict(m)
+//@     invariant own3: (cap(a.AVP) == 0 || fresh(a.AVP))
+//@     invariant code: hasresult(a) && resultcode(a) == 2001
+//@     invariant ident: identified(a, sm.cfg)
+//@     invariant ids: mirrors(a, m) && a.Header.CommandFlags == m.Header.CommandFlags &^ 0x80
+//@   end
+//@   loop 1
+//@     invariant 0 - 1 <= rangeindex && rangeindex < len(sm.supportedApps)
+//@     invariant apps_listed: forall i int :: 0 <= i && i < len(sm.supportedApps) ==> sm.supportedApps[i] != nil
+//@     invariant own1: a != nil && fresh(a) && a.Header != nil && fresh(a.Header)
+//@     invariant own2: a.dictionary == mdict(m)
+//@     invariant own3: (cap(a.AVP) == 0 || fresh(a.AVP))
+//@     invariant code: hasresult(a) && resultcode(a) == 2001
+//@     invariant ident: identified(a, sm.cfg)
+//@     invariant ids: mirrors(a, m) && a.Header.CommandFlags == m.Header.CommandFlags &^ 0x80
+//@   end
+//@ end
+//@
+//@ spec metaof(c diam.Conn) *smpeer.Metadata = ctxvalue(connctx(c), smpeer.key(0)).(*smpeer.Metadata)
+//@ # the CER handler (the function value handleCER returns): free variable sm
+//@ func handleCER$1(c, m)
+//@   property C10 C11
+//@   requires smok(sm) && c != nil && isptr(c) && reqok(m) && !closed(sm.hsNotifyc)
+//@   requires apps_listed: forall i int :: 0 <= i && i < len(sm.supportedApps) ==> sm.supportedApps[i] != nil
+//@   modifies connctx(c), connclosed(c), reports(), unmarshalled(m), cerverdict(m), cerof(m),
+//@            written(c), wstream(c), wlog(c)[written(c):written(c)+(1<<24)], bufslice(any), bytes(any), inpool(any), lastsent(c), fresh
+//@   ensures [C11] retransmission_ignored: old(hs(c)) ==> connctx(c) == old(connctx(c)) && lastsent(c) == old(lastsent(c)) && connclosed(c) == old(connclosed(c)) && reports() == old(reports())
+//@   ensures [C11] rejected_closes_without_metadata: !old(hs(c)) && cerverdict(m) != nil ==> connclosed(c) && connctx(c) == old(connctx(c))
+//@   ensures [C11] rejected_gets_matching_code: !old(hs(c)) && cerverdict(m) != nil && fresh(lastsent(c)) ==>
+//@           hasresult(lastsent(c)) && resultcode(lastsent(c)) == codefor(cerverdict(m)) && identified(lastsent(c), sm.cfg) && mirrors(lastsent(c), m)
+//@   ensures [C11] rejected_unsent_is_reported: !old(hs(c)) && cerverdict(m) != nil && !fresh(lastsent(c)) ==> reports() == old(reports()) + 1
+//@   ensures [C10 C11] metadata_only_after_the_success_answer: !old(hs(c)) && hs(c) ==> cerverdict(m) == nil && fresh(lastsent(c)) &&
+//@           hasresult(lastsent(c)) && resultcode(lastsent(c)) == 2001 && identified(lastsent(c), sm.cfg) && mirrors(lastsent(c), m)
+//@   ensures [C11] accepted_gets_metadata_or_a_report: !old(hs(c)) && cerverdict(m) == nil ==> (hs(c) && !connclosed(c) == !old(connclosed(c))) || (connctx(c) == old(connctx(c)) && reports() == old(reports()) + 1)
+//@   ensures [C11] metadata_is_the_peers: !old(hs(c)) && hs(c) ==> metaof(c) != nil && metaof(c).OriginHost == cerof(m).OriginHost &&
+//@           metaof(c).OriginRealm == cerof(m).OriginRealm && sameslice(metaof(c).Applications, cerof(m).appID)
+//@ end
+//@
+//@ # ======================= dispatch through the gate (C10) ====================
+//@ # h is one of the state machine's own registrations (under a built-in key)
+//@ spec ownentry(s *StateMachine, h diam.Handler) bool =
+//@      (has(s.mux.idxMap, cerIdx()) && h == s.mux.idxMap[cerIdx()].h) || (has(s.mux.idxMap, ceaIdx()) && h == s.mux.idxMap[ceaIdx()].h) ||
+//@      (has(s.mux.idxMap, dwrIdx()) && h == s.mux.idxMap[dwrIdx()].h) ||
+//@      (has(s.mux.m, "CER") && h == s.mux.m["CER"].h) || (has(s.mux.m, "CEA") && h == s.mux.m["CEA"].h) || (has(s.mux.m, "DWR") && h == s.mux.m["DWR"].h)
+//@ func (*StateMachine).ServeDIAM(sm, c, m)
+//@   property C10
+//@   requires gated(sm) && muxwf(sm.mux) && diam.ALL_CMD_INDEX == allidx() && reqok(m)
+//@   assume default_dictionary_initialised: dict.Default != nil && pwf(dict.Default)
+//@   ensures [C10] at_most_one_handler: handlercalls() == old(handlercalls()) || handlercalls() == old(handlercalls()) + 1
+//@   ensures [C10] application_handlers_only_through_the_gate: handlercalls() == old(handlercalls()) + 1 ==>
+//@           typeis(lasthandler(), handshakeOK) || (forall h diam.Handler :: h == lasthandler() ==> old(ownentry(sm, h)))
+//@   ensures [C10] same_connection_and_message: handlercalls() == old(handlercalls()) + 1 ==> lastconn() == c && lastmsg() == m
 //@ end
